@@ -464,13 +464,13 @@ def exB2 : Blk Key Nat := ⟨fun k => k = ("b", 0), fun k => k = ("c", 0), fun t
 theorem exSim1 (castB : Bool) : Sim mview castB exΓ exP1 exB1 := by
   intro s
   funext k
-  simp [mview, exP1, exB1, exec, loc, exΓ, evalRhs, eval, selfWidth, readLoc, writeLoc, Loc.width, PTy.width, get_set, poke]
+  simp [mview, exP1, exB1, exec, loc, exΓ, evalRhs, eval, evalC, signedOf, selfWidth, readLoc, writeLoc, Loc.width, PTy.width, get_set, poke]
   split <;> omega
 
 theorem exSim2 (castB : Bool) : Sim mview castB exΓ exP2 exB2 := by
   intro s
   funext k
-  simp [mview, exP2, exB2, exec, loc, exΓ, evalRhs, eval, selfWidth, readLoc, writeLoc, Loc.width, PTy.width,
+  simp [mview, exP2, exB2, exec, loc, exΓ, evalRhs, eval, evalC, signedOf, selfWidth, readLoc, writeLoc, Loc.width, PTy.width,
     get_set, poke, binVal]
   split <;> omega
 
